@@ -277,17 +277,23 @@ function genTrace(spec, seed, bridge, run) {
     const count = (arr) => { const c = new Map(); for (const t of arr) c.set(t, (c.get(t) || 0) + 1); return c; };
     const haveN = count(types.filter(Boolean));
     const distinctOk = (m) => { const c = count(needs(m)); for (const [t, k] of c) if ((haveN.get(t) || 0) < Math.min(k, NSLOT - 1)) return false; return true; };
-    const strict = rng.chance(3, 4);
-    const cands = spec.methods.filter((m) => (strict ? distinctOk(m) : needs(m).every((t) => have.has(t))));
+    const cands = spec.methods.filter((m) => needs(m).every((t) => have.has(t)));
     if (!cands.length || rng.chance(1, 4)) {
       // something some method is still waiting for, if anything; else any opaque
       const missing = [];
-      for (const m of spec.methods) { const c = count(needs(m)); for (const [t, k] of c) for (let q = haveN.get(t) || 0; q < Math.min(k, NSLOT - 1); q++) missing.push(t); }
+      for (const m of spec.methods) for (const t of needs(m)) if (!have.has(t)) missing.push(t);
       const tname = missing.length && rng.chance(3, 4) ? rng.pick(missing) : rng.pick(spec.opaques).name;
       ops.push({ op: "mk", type: tname, dst });
       types[dst] = tname; continue;
     }
     const m = rng.pick(cands);
+    if (!distinctOk(m) && rng.chance(1, 2)) {
+      // not enough different objects for this method's inputs yet: make one more of a type it lacks instead
+      const lack = []; for (const [t, k] of count(needs(m))) if ((haveN.get(t) || 0) < Math.min(k, NSLOT - 1)) lack.push(t);
+      const tname = rng.pick(lack);
+      ops.push({ op: "mk", type: tname, dst });
+      types[dst] = tname; continue;
+    }
     avoid = new Set([dst]);
     const args = m.params.map((p) => {
       if (p.kind === "opaque") return slotOf(p.ty);
@@ -320,6 +326,38 @@ function genTrace(spec, seed, bridge, run) {
     else if (m.ret.kind === "reserr") types[dst] = m.ret.err.ty;
   }
   return { seed, bridge, run, ops };
+}
+
+/** One directed schedule per method (and per arm / kept field of its return value), executed before the random ones:
+ *  every opaque input is a different object, the program forgets all of them right after the call, the collector
+ *  runs and every finalizer of what died runs (twice, for chains), then everything still held is used. Any lender
+ *  the bindings fail to keep alive is destroyed by then. The random schedules explore what this one does not
+ *  (partial drops, delayed finalizers, shared objects, faults, longer histories). */
+function directedTraces(spec, seed, bridge) {
+  const out = [];
+  spec.methods.forEach((m, mi) => {
+    const pre = []; let next = 0; let bad = false;
+    const mkObj = (ty) => {
+      if (next >= NSLOT - 1) { const e = pre.find((o) => o.type === ty); if (!e) bad = true; return e ? e.dst : -1; }
+      const dst = next++; pre.push({ op: "mk", type: ty, dst }); return dst;
+    };
+    const self = m.static ? -1 : mkObj(m.owner);
+    const structArg = (sname) => spec.structs.find((x) => x.name === sname).fields.map((f) => (f.kind === "opaque" ? mkObj(f.ty) : f.kind === "struct" ? structArg(f.ty) : "tag"));
+    const args = m.params.map((p) => (p.kind === "opaque" || p.kind === "optopaque" ? mkObj(p.ty) : p.kind === "slice" ? "tag" : structArg(p.ty)));
+    if (bad) return;
+    const dst = next;
+    const isStruct = m.ret.kind === "struct" || m.ret.kind === "resstruct";
+    const arms = m.ret.kind === "reserr" ? [true, false] : [true];
+    const keeps = isStruct ? [7, 1, 2, 4] : [7];
+    for (const arm of arms) for (const keepMask of keeps) {
+      const ops = pre.map((o) => ({ ...o }));
+      ops.push({ op: "call", m: mi, self, args, dst, arm, noneMask: 0, dropArgs: true, keepMask });
+      for (let round = 0; round < 2; round++) { ops.push({ op: "gc" }); for (let k = 0; k < 8; k++) ops.push({ op: "fin", k: 0 }); }
+      for (let sl = 0; sl < NSLOT; sl++) ops.push({ op: "use", slot: sl });
+      out.push({ seed, bridge, run: -1 - out.length, ops, directed: true });
+    }
+  });
+  return out;
 }
 
 // ---- executor ------------------------------------------------------------------------------------------
@@ -548,20 +586,22 @@ async function main() {
   // (bridge -1 is the fixed catalogue; its traces are derived like any other bridge's)
   const traces = new Set(), nontrivial = new Set(), transitions = new Set(); let digest = 0n, runs = 0; const samples = [];
   let code = 0, oracle = "";
-  for (let run = from; run < to; run++) {
-    const t = genTrace(spec, seed, bridge, run);
+  const directed = from === 0 ? directedTraces(spec, seed, bridge) : [];
+  for (let run = from - directed.length; run < to; run++) {
+    const t = run < from ? directed[run - (from - directed.length)] : genTrace(spec, seed, bridge, run);
+    if (run < from) inc("directed_schedules_run");
     const o = await execute(spec, classes, t); runs++;
     const th = fnv1a64hex(JSON.stringify(t.ops)); traces.add(th);
     if (o.nontrivial) { nontrivial.add(th); if (samples.length < 1) samples.push(t); }
     for (const tr of o.transitions) transitions.add(tr);
-    digest = (digest + BigInt("0x" + fnv1a64hex(o.log)) + BigInt(run) * 0x9e3779b97f4a7c15n) & 0xffffffffffffffffn;
+    digest = (digest + BigInt("0x" + fnv1a64hex(o.log)) + BigInt(run + 1000000) * 0x9e3779b97f4a7c15n) & 0xffffffffffffffffn;
     if (kv.dumplogs) fs.appendFileSync(kv.dumplogs, `${run} ${fnv1a64hex(o.log)}\n`);
     if (o.violation) {
       if (o.violation.oracle === "HARNESS") { console.error("HARNESS-ERROR " + o.violation.detail); process.exit(2); }
       const m = await minimise(spec, classes, t, o.violation.oracle);
       const mo = await execute(spec, classes, m);
-      console.log("-----BEGIN REPLAY-----\n" + JSON.stringify({ property: PROP, oracle: o.violation.oracle, engine: "gc-sim", abi: kv.abi ?? "", seed, bridge, run, trace: m, log: mo.log.split("\n"), original_ops: t.ops.length }, null, 1) + "\n-----END REPLAY-----");
-      console.log(`VIOLATION property=${PROP} replay=- oracle=${o.violation.oracle} engine=gc-sim seed=${seed} bridge=${bridge} run=${run} step=${o.violation.step} detail=${JSON.stringify(o.violation.detail)}`);
+      console.log("-----BEGIN REPLAY-----\n" + JSON.stringify({ property: PROP, oracle: o.violation.oracle, engine: "gc-sim", abi: kv.abi ?? "", seed, bridge, run: t.run, trace: m, log: mo.log.split("\n"), original_ops: t.ops.length }, null, 1) + "\n-----END REPLAY-----");
+      console.log(`VIOLATION property=${PROP} replay=- oracle=${o.violation.oracle} engine=gc-sim seed=${seed} bridge=${bridge} run=${t.run} step=${o.violation.step} detail=${JSON.stringify(o.violation.detail)}`);
       code = 1; oracle = o.violation.oracle; break;
     }
   }
